@@ -28,7 +28,7 @@ META = {
              "either name at random levels, .editorconfig files, XDG/HOME files, random target lists (relative, "
              "./-prefixed, absolute, directories, stdin) and random flag subsets. A case is distinct by its files + cwd "
              "+ argv; it is non-trivial when, for at least one judged file, another configuration present in the tree "
-             "(or the defaults) would have given different bytes than the configuration the model selects."),
+             "(or the defaults) would have given different bytes than the configuration the model selects. Also pinned: user-level locations with targets outside the working directory (absolute file, directory, --stdin-filepath) with and without -s; linked files, directories and configuration files."),
     "assumptions": [
         "model written from README 'Finding the configuration' and the --help texts; when both names exist in one "
         "directory the model takes the one the documentation mentions first (stylua.toml)",
